@@ -801,6 +801,27 @@ func runC17(p *an.Prog, r *an.Run, tier string) {
 		if nf == nil || ir == nil || an.ReachAvoiding(rm, an.EdgeSet(an.ErrEdges(nf).Succ))[ir.Block()] {
 			bad = append(bad, "the framed codec reads a message without first advancing to the next frame successfully")
 		}
+		// the JSON decoder stops at the end of the value: the rest of the message (its newline, the last fragments
+		// of a message sent in several frames) stays unread, and NextFrame would parse it as a header. The unread
+		// remainder is discarded (successfully) before every advance.
+		if nf != nil {
+			var dc ssa.CallInstruction
+			for _, c := range an.Calls(rm, false) {
+				if f := an.CallObj(c); f != nil && f.Name() == "Discard" && an.RecvNamed(f) != nil && an.RecvNamed(f).Obj().Name() == "Reader" {
+					dc = c
+				}
+			}
+			if dc == nil {
+				bad = append(bad, "the framed codec advances to the next frame without discarding what the decoder left unread of the previous message: after a message sent in several frames (larger than the writer's buffer) the next read fails and the following message is lost")
+			} else {
+				if an.ReachAvoiding(rm, an.EdgeSet(an.ErrEdges(dc).Succ))[nf.Block()] {
+					bad = append(bad, "NextFrame is reachable without a successful Discard of the previous message's remainder")
+				}
+				if stripLoad(methodRecv(dc)) == nil || !sameFieldLoad(methodRecv(dc), methodRecv(nf)) {
+					bad = append(bad, "Discard and NextFrame act on different readers")
+				}
+			}
+		}
 		var iw, fl ssa.CallInstruction
 		for _, c := range an.Calls(wm, false) {
 			if f := an.CallObj(c); f != nil && f.Name() == "WriteMessage" {
@@ -931,4 +952,27 @@ func hasReadMethod(t types.Type) bool {
 		}
 	}
 	return false
+}
+
+func methodRecv(c ssa.CallInstruction) ssa.Value {
+	if c.Common().IsInvoke() {
+		return c.Common().Value
+	}
+	if len(c.Common().Args) > 0 {
+		return c.Common().Args[0]
+	}
+	return nil
+}
+
+// sameFieldLoad: a and b are loads of the same field of the same base object.
+func sameFieldLoad(a, b ssa.Value) bool {
+	if a == nil || b == nil {
+		return false
+	}
+	if a == b {
+		return true
+	}
+	fa, oka := stripLoad(a).(*ssa.FieldAddr)
+	fb, okb := stripLoad(b).(*ssa.FieldAddr)
+	return oka && okb && fa.Field == fb.Field && fa.X == fb.X
 }
